@@ -22,6 +22,7 @@ import (
 	"fmt"
 	"net"
 	"net/netip"
+	"sort"
 	"strings"
 	"time"
 
@@ -331,6 +332,22 @@ func ruleTags(q aQ, r aR, proto string, reply *dns.Msg) string {
 	return "nt," + strings.Join(t, ",")
 }
 
+// sortOptions orders the option list of a rendered reply.
+func sortOptions(abs string) string {
+	i := strings.LastIndex(abs, " opt=")
+	if i < 0 {
+		return abs
+	}
+	o := abs[i+5:]
+	j := strings.LastIndex(o, "/")
+	if j < 0 || strings.Contains(o, "|") {
+		return abs
+	}
+	parts := strings.Split(o[j+1:], ";")
+	sort.Strings(parts)
+	return abs[:i+5] + o[:j+1] + strings.Join(parts, ";")
+}
+
 func packReply(m *dns.Msg) ([]byte, error) {
 	c := m.Copy()
 	c.Compress = m.Compress
@@ -542,7 +559,10 @@ func exec(op string) vlib.Res {
 		// the REAL cache handler between edns and a terminal that must not be
 		// reached: the entry is admitted first, then the query is served as a hit
 		path, proto := f[2], f[3]
-		q, r := parseQ(f[4]), parseR(f[5])
+		q, r := parseQ(f[5]), parseR(f[6])
+		if packedHitLens(q, r) != f[4] {
+			return vlib.Res{Impl: "bad-lens packed " + packedHitLens(q, r)}
+		}
 		raw := rawQuery(q)
 		orig := new(dns.Msg)
 		if err := orig.Unpack(raw); err != nil {
@@ -586,7 +606,9 @@ func exec(op string) vlib.Res {
 			return vlib.Res{Impl: "miss", Oracle: "-", Tags: "hit-missed"}
 		}
 		reply := w.msg
-		impl := curCfg.ctx().absReply(reply, orig)
+		// byte and message route order the OPT's options differently (server
+		// options first vs the entry's extended error first): compared as a set
+		impl := sortOptions(curCfg.ctx().absReply(reply, orig))
 		or := "-"
 		tags := "nt,hit"
 		if w.raw != nil {
